@@ -33,10 +33,29 @@ def gen_election(rng):
             "strategy": rng.choice(["bully", "bully", "ring", "ring", "randomized"]),
             "seed": rng.getrandbits(32), "net_seed": rng.getrandbits(32), "n": n, "election_timeout": et,
             "heartbeat_interval": hb, "include_self": rng.random() < 0.7,
-            "starts": [round(rng.uniform(0, et * rng.choice([0.0, 0.2, 1.5])), 5) for _ in range(n)],
+            "starts": _gen_starts(rng, n, et),
+            # wiring styles the API allows: one strategy object shared by all nodes, or one per node
+            "shared_strategy": rng.random() < 0.5,
             "profile": prof, "per_link": gen_per_link(rng, n, prof),
             "faults": gen_fault_list(rng, n, horizon, ("partition", "crash", "pause", "loss"), 4) if faulty else [],
             "horizon": horizon}
+
+
+def _gen_starts(rng, n, et):
+    """Who starts (and hence times out) first: random, highest id first, lowest id first, all at once, a few at once."""
+    pat = rng.choice(["random", "random", "highest-first", "lowest-first", "all-at-once", "some-at-once"])
+    if pat == "random":
+        return [round(rng.uniform(0, et * rng.choice([0.0, 0.2, 1.5])), 5) for _ in range(n)]
+    t0 = round(rng.uniform(0, 0.2 * et), 5)
+    if pat == "all-at-once":
+        return [t0] * n
+    gap = round(et * rng.choice([0.05, 0.3, 1.0, 2.5]), 5)
+    if pat == "highest-first":
+        return [round(t0 + gap * (n - 1 - i), 5) for i in range(n)]
+    if pat == "lowest-first":
+        return [round(t0 + gap * i, 5) for i in range(n)]
+    first = set(rng.sample(range(n), rng.randint(2, n - 1) if n > 2 else 2))
+    return [t0 if i in first else round(t0 + gap * (1 + rng.random()), 5) for i in range(n)]
 
 
 def run_election(sc):
@@ -53,7 +72,9 @@ def run_election(sc):
         raise InvalidScenario("fault-free class")
     seed_globals(sc["seed"])
     ref = NetRef()
-    nodes = [LeaderElection(name=f"n{i}", network=ref, strategy=STRATS[sc["strategy"]](),
+    # one strategy object shared by all nodes, or one per node (both are legal wirings of the public API)
+    shared = STRATS[sc["strategy"]]() if sc.get("shared_strategy") else None
+    nodes = [LeaderElection(name=f"n{i}", network=ref, strategy=shared or STRATS[sc["strategy"]](),
                             election_timeout=sc["election_timeout"], heartbeat_interval=sc["heartbeat_interval"])
              for i in range(n)]
     for a in nodes:
@@ -113,12 +134,15 @@ def run_election(sc):
         sig, msg = payload.sig, payload.msg
         if status == "exception":
             sig = f"C12/{sig}"
+    pr["el_shared_strategy_election_completed"] = int(bool(sc.get("shared_strategy")) and bool(by_term))
+    pr["el_highest_started_first"] = int(sc["starts"][n - 1] < min(sc["starts"][:n - 1]))
+    pr["el_several_started_at_once"] = int(len(set(sc["starts"])) < n)
     counters = {f"probe.{k}": v for k, v in pr.items()}
     counters.update(fd.counters())
     counters["budget_exhausted"] = int(status == "budget")
-    state = repr((sc["strategy"], sorted((x.current_term, x.current_leader or "") for x in nodes)))
+    state = repr((sc["strategy"], bool(sc.get("shared_strategy")), sorted((x.current_term, x.current_leader or "") for x in nodes)))
     return result(sig=sig, msg=msg, digest=mon.digest, nontrivial=bool(by_term) and status != "budget", counters=counters,
-                  sim_s=mon.last_time_ns / 1e9, deliveries=mon.seq, klass=f"{sc['klass']}:{sc['strategy']}", state=state)
+                  sim_s=mon.last_time_ns / 1e9, deliveries=mon.seq, klass=f"{sc['klass']}:{sc['strategy']}{'+shared' if sc.get('shared_strategy') else ''}", state=state)
 
 
 # --------------------------------------------------------------------------
